@@ -44,7 +44,8 @@ type StructResult struct {
 	Laws    map[string]string `json:"laws,omitempty"`   // law -> failure message ("" = held)
 	Counts  map[string]int    `json:"counts,omitempty"` // law -> evaluations
 	Evals   int               `json:"evals"`
-	Singled bool              `json:"singled,omitempty"` // verdict obtained in a package of its own
+	Singled bool              `json:"singled,omitempty"`  // verdict obtained in a package of its own
+	LawOnly bool              `json:"law_only,omitempty"` // compile failure located in the law test only (the generated file itself compiles)
 }
 
 // PkgResult is what one scenario execution reports.
@@ -547,6 +548,7 @@ func RunPackage(p *Package) *PkgResult {
 		switch a.stage {
 		case "compile":
 			results[i].Status = "compile"
+			results[i].LawOnly = !strings.Contains(a.out, genFile+":")
 			results[i].Detail = trunc(structRe.ReplaceAllString(generatedFirst(a.out), "S"), 3000)
 		case "gombok":
 			results[i].Status = "rejected"
